@@ -81,7 +81,7 @@ static int search_palette_sections( int16_t *buf, int size, int **palette_restar
     int i,j,got_palette,restart_i,palette_size=0, last_restart_idx, zero_cnt;
     int prev_idx[512];  // For each value, keep track of the index of the previous occurence
     int *restart_pos;
-    int max_palettes = round_up_divide(size, 64);
+    int max_palettes = round_up_divide(size, 64) + 1;  // at least one entry: restart_pos[0] is always written
     *palette_restart_positions = NULL;
 
     // Preliminary allocation of sufficient size
